@@ -279,6 +279,7 @@ def run(ck):
                     out.append([1, c06.rbytes(rng, rng.choice([0, 0, 1, 7, 90]))])
                 else:
                     out.append([rng.choice([2, 3, 5, -1]), c06.rbytes(rng, rng.choice([0, 2]))])
+            out.insert(rng.randrange(len(out) + 1), [0, bytes([rng.choice([0x41, 0x65, 0x26, 0x01])])])   # a one-byte unit
             return out
         def conv_cfgs():
             good_sps, good_pps = bytes([0x67, 0x42, 0x00, 0x1f, 0x95, 0xa8]), bytes([0x68, 0xce, 0x3c, 0x80])
